@@ -375,23 +375,25 @@ func runAttack(r *ev.Report, from string, sl slot, pr pres, warm string, cacheSi
 		}
 	}
 	// warming fetches put redirect and document results into the cache first
-	switch warm {
-	case "victim":
-		pub.New(V, nil)
-		pub.New(A, nil)
-	case "reference":
-		if s, ok := ref.(string); ok {
-			pub.New(s, nil)
-		} else if m, ok := ref.(M); ok {
-			if id, ok := m["id"].(string); ok {
-				u, _ := url.Parse(id)
-				if u != nil {
-					client.FetchURL(u)
+	for _, warm := range strings.Split(warm, "+") {
+		switch warm {
+		case "victim":
+			pub.New(V, nil)
+			pub.New(A, nil)
+		case "reference":
+			if s, ok := ref.(string); ok {
+				pub.New(s, nil)
+			} else if m, ok := ref.(M); ok {
+				if id, ok := m["id"].(string); ok {
+					u, _ := url.Parse(id)
+					if u != nil {
+						client.FetchURL(u)
+					}
 				}
 			}
+		case "carrier-twice":
+			pub.New(carrierID, nil)
 		}
-	case "carrier-twice":
-		pub.New(carrierID, nil)
 	}
 	run("pub.New(url)", func() any { return pub.New(carrierID, nil) })
 	run("pub.New(url) again", func() any { return pub.New(carrierID, nil) })
@@ -444,7 +446,7 @@ func main() {
 	r := ev.New("C02", "model_checking",
 		"attack worlds: attacker host in {evil, h2} x 12 reference slots (inReplyTo, attributedTo, audience, reply item, activity object/actor, Create object, an inline Create wrapper with a claimed id, outbox item, collection item, first page) x 20 presentations of a forged copy of h1's note or actor "+
 			"(embedded copy, stubs, URL to a forging path, redirects to the victim / a third-host copy / relative, victim-host open redirect, open redirect used as id, id with :443 / upper case / userinfo / trailing dot / missing / wrong type, genuine URL) "+
-			"x warming history {cold, victim cached, reference cached, carrier fetched before} x cache size {1,2,128}; each through pub.New (by URL twice, embedded with attacker source, embedded without source) with every reachable item inspected, and through client.FetchUnknown three times; "+
+			"x warming history {cold, victim cached, reference cached, carrier fetched before; thorough: also every ordered pair of these} x cache size {1,2,128}; each through pub.New (by URL twice, embedded with attacker source, embedded without source) with every reachable item inspected, and through client.FetchUnknown three times; "+
 			"every object names its serving host in its visible text and in a stamp; distinct_nontrivial = attack cases (not the genuine-URL control)")
 	if *ev.FlagReplay != "" {
 		var d struct {
@@ -466,6 +468,16 @@ func main() {
 		r.Finish()
 	}
 	warms := []string{"cold", "victim", "reference", "carrier-twice"}
+	if r.Thorough() {
+		// every ordered pair of warming steps as well (histories of two fetches before the attack)
+		for _, a := range []string{"victim", "reference", "carrier-twice"} {
+			for _, b := range []string{"victim", "reference", "carrier-twice"} {
+				if a != b {
+					warms = append(warms, a+"+"+b)
+				}
+			}
+		}
+	}
 	sizes := []int{128, 1, 2}
 	if !r.Thorough() {
 		sizes = []int{128, 1}
